@@ -34,7 +34,14 @@ pub struct Plan {
     /// the next replica to completion - two parses are then in flight in the process at the same time, the
     /// parked one stopped at a chosen place inside its document
     pub park_at: Option<usize>,
+    /// re-entrancy point: at this fill_buf call the byte source itself parses and renders a small, complete,
+    /// unrelated document on the same thread before it answers (an include mechanism, a logging reader, a
+    /// validating wrapper): two library calls nested on one thread
+    pub nested_at: Option<usize>,
 }
+
+/// what a re-entrant byte source does; set by the session runner (it lives in session.rs, which knows the library)
+pub static NESTED_CALL: std::sync::OnceLock<fn()> = std::sync::OnceLock::new();
 
 thread_local! {
     /// (tell the simulator "I am parked", wait for "go on"); installed by the session runner for a parking replica
@@ -56,10 +63,10 @@ fn park_here() -> bool {
 
 impl Plan {
     pub fn slice() -> Plan {
-        Plan { cuts: vec![], eintr: vec![], fault: Fault::None, bufreader_cap: 0, slice: true, io_once: false, park_at: None }
+        Plan { cuts: vec![], eintr: vec![], fault: Fault::None, bufreader_cap: 0, slice: true, io_once: false, park_at: None, nested_at: None }
     }
     pub fn whole() -> Plan {
-        Plan { cuts: vec![], eintr: vec![], fault: Fault::None, bufreader_cap: 0, slice: false, io_once: false, park_at: None }
+        Plan { cuts: vec![], eintr: vec![], fault: Fault::None, bufreader_cap: 0, slice: false, io_once: false, park_at: None, nested_at: None }
     }
     pub fn is_trivial(&self) -> bool {
         self.slice || (self.cuts.is_empty() && self.eintr.is_empty() && self.fault == Fault::None && self.bufreader_cap == 0)
@@ -83,6 +90,9 @@ impl Plan {
         if let Some(k) = self.park_at {
             o.put("park_at", J::Int(k as i64));
         }
+        if let Some(k) = self.nested_at {
+            o.put("nested_at", J::Int(k as i64));
+        }
         o
     }
     pub fn from_j(j: &J) -> Result<Plan, String> {
@@ -103,6 +113,7 @@ impl Plan {
         p.bufreader_cap = j.int_of("bufreader_cap")? as usize;
         p.io_once = matches!(j.get("io_once"), Some(J::Bool(true)));
         p.park_at = j.int_of("park_at").ok().map(|k| k as usize);
+        p.nested_at = j.int_of("nested_at").ok().map(|k| k as usize);
         Ok(p)
     }
 
@@ -220,6 +231,7 @@ pub struct ReadStats {
     pub chunks: u64,
     pub eof_polls: u64,
     pub parked: u64,
+    pub nested: u64,
 }
 
 pub struct SimReader<'a> {
@@ -268,6 +280,12 @@ impl<'a> BufRead for SimReader<'a> {
         }
         if self.plan.park_at == Some(idx) && park_here() {
             self.stats.parked += 1;
+        }
+        if self.plan.nested_at == Some(idx) {
+            if let Some(f) = NESTED_CALL.get() {
+                self.stats.nested += 1;
+                f();
+            }
         }
         if self.plan.eintr.contains(&idx) {
             self.stats.eintr_fired += 1;
